@@ -115,6 +115,14 @@ func (st *c08State) do(op string) (res opResult) {
 				res.err = err2
 				res.ok = err2 == nil && bytes.Equal(out, pl)
 			}
+		case "bad": // decrypt a tampered copy of the partition's record: must fail, and must not hurt anybody else
+			r := cloneDRR(st.recs[part])
+			r.Data[len(r.Data)/2] ^= 0x40
+			_, err := st.sess[part].Decrypt(ctx, *r)
+			res.ok = err != nil
+			if err == nil {
+				res.err = fmt.Errorf("a tampered record decrypted without error")
+			}
 		case "hold": // open a session of the factory, decrypt the partition's existing record, close
 			s, err := st.f.GetSession(part)
 			if err != nil {
@@ -249,6 +257,11 @@ func c08Scenarios(thorough bool) []c08Scenario {
 			threads: [][]string{{"enc:A", "dec:A"}, {"sess:A"}, {"sess:B"}}},
 		c08Scenario{name: "H6-session-cache", spec: SpecSessions("slru", 1), parts: []string{"A"},
 			threads: [][]string{{"dec:A"}, {"sess:B"}}},
+		// a failed decrypt (tampered record) next to users of the same cached key: the failure must not release the key twice
+		c08Scenario{name: "H7-failed-decrypt-shared-lru", spec: SpecShared("lru", 2), parts: []string{"A", "B"},
+			threads: [][]string{{"bad:A", "dec:A"}, {"dec:A", "dec:B"}}},
+		c08Scenario{name: "H7-failed-decrypt-default", spec: SpecDefault, parts: []string{"A"},
+			threads: [][]string{{"bad:A", "bad:A", "dec:A"}, {"enc:A"}}},
 		// two holders of one cached session while it is evicted: the close of the other holder must not tear it down
 		c08Scenario{name: "H6-session-cache-2holders", spec: SpecSessions("slru", 1), parts: []string{"A"},
 			foreign: []string{"B"}, threads: [][]string{{"dec:A", "dec:A"}, {"hold:A"}, {"hold:B"}}},
